@@ -5,6 +5,7 @@ from .._change import Replace
 from .._global_state import state
 from .._sentinels import undefined
 from .._utils import value_to_token
+from .generic_value import contains_user_controlled_parts
 from .generic_value import GenericValue
 from .generic_value import clone
 
@@ -49,6 +50,7 @@ class MinMaxValue(GenericValue):
             flag = "trim"
         elif (
             self._ast_node is not None
+            and not contains_user_controlled_parts(self._old_value, self._ast_node)
             and not self._file._same_tokens(self._ast_node, new_token)
         ):
             flag = "update"
